@@ -70,9 +70,19 @@ One(n, k, p) == [i \in 1..n |-> IF i = p THEN k ELSE "raw"]
 Patterns(n) == {AllOf(n, k) : k \in UnitKinds} \cup {Alt(n)}
                \cup {One(n, k, p) : k \in UnitKinds \ {"raw"}, p \in {1, (n + 1) \div 2, n} \cap 1..n}
 
+(* identifiers whose TEXT is exactly tl characters long although they have fewer than tl units:     *)
+(* m escapes (3 characters each) first or last, raw characters otherwise - a parser that looks at    *)
+(* the length of the text (20: "already plain", 60: "fully escaped") instead of counting decoded     *)
+(* bytes meets its boundary here                                                                     *)
+TextLen(tl, k, ms) ==
+    {[i \in 1..(tl - 2 * m) |-> IF i <= m THEN k ELSE "raw"] : m \in ms}
+    \cup {[i \in 1..(tl - 2 * m) |-> IF i > tl - 3 * m THEN k ELSE "raw"] : m \in ms}
+
 UrlShapes ==
     {[k |-> "url", units |-> u, defect |-> "none", dpos |-> 0] :
-        u \in UNION {Patterns(n) : n \in 0..22}}
+        u \in UNION {Patterns(n) : n \in 0..22}
+              \cup UNION {TextLen(20, k, 1..6) : k \in {"escL", "escU"}}
+              \cup TextLen(60, "escL", {1, 10, 19}) \cup {AllOf(60, "raw"), AllOf(40, "raw")}}
     \cup
     {[k |-> "url", units |-> u, defect |-> d, dpos |-> p] :
         u \in UNION {{AllOf(n, "raw"), AllOf(n, "escL"), Alt(n)} : n \in {0, 18, 19, 20, 21}},
